@@ -125,7 +125,7 @@ def shards(tier, seed):
             out.append({"name": f"faces{d}d-{dt}", "group": "faces", "dim": d, "dtype": dt})
     for dt in ("float64", "float32"):
         out.append({"name": f"kern-{dt}", "group": "kern", "dtype": dt})
-    for kind, nsh in (("ns3d", 6 if tier == "quick" else 10), ("ns2d", 3), ("passive", 1)):
+    for kind, nsh in (("ns3d", 6 if tier == "quick" else 10), ("ns2d", 4), ("passive", 1)):
         cfgs = _configs(kind, tier, seed)
         # fast-diag steps are slow: spread them
         cfgs.sort(key=lambda c: (c.get("solver", ""), c.get("dtype", "")))
@@ -233,7 +233,7 @@ def _e2e(sh, rec):
             lead = prim.shape[: prim.ndim - d]
             dx = float(sim.dx)
             slow = cfg.get("solver") == "fast_diagonalisation"
-            nstate = (2 if slow else 4) if not thorough else (3 if slow else 8)
+            nstate = (3 if slow else 6) if not thorough else (3 if slow else 8)
             for si in range(nstate):
                 fk = FIELD_KINDS[(si + ci) % len(FIELD_KINDS)] if si < 2 else str(rng.choice(FIELD_KINDS))
                 vk = VEL_KINDS[(si + 2 * ci) % len(VEL_KINDS)] if si < 2 else str(rng.choice(VEL_KINDS))
@@ -357,15 +357,9 @@ def _pattern_velocity(rng, shape, ax, real_t):
     other = [s for i, s in enumerate(shape) if i != ax]
     lines = int(np.prod(other)) if other else 1
     mag = np.exp(rng.standard_normal((lines, n)) * 1.5)
-    sgn = np.empty((lines, n))
-    for li in range(lines):  # sign blocks of random length 1..5
-        k = 0
-        s = rng.choice([-1.0, 1.0])
-        while k < n:
-            L = int(rng.integers(1, 6))
-            sgn[li, k : k + L] = s
-            s = -s if rng.random() < 0.8 else s
-            k += L
+    # sign blocks of random (geometric, mean ~3) length
+    flips = rng.random((lines, n)) < 0.35
+    sgn = rng.choice([-1.0, 1.0], size=(lines, 1)) * np.where(np.cumsum(flips, axis=1) % 2 == 0, 1.0, -1.0)
     v = (mag * sgn).astype(real_t)
     r = rng.random((lines, n))
     v[r < 0.08] = 0.0  # exact zeros (one-sided and two-sided)
@@ -404,9 +398,12 @@ def _faces(sh, rec):
     infos = [i for i in kernelspy.REG[n0:] if i.gen == gen.__name__]
     faces = _find_face_kernels(infos, d)
     rec.count("face_kernels_identified", 2 * len(faces))
-    nrep = (6 if d == 2 else 4) * (6 if thorough else 1)
+    nrep = (6 if d == 2 else 4) * (8 if thorough else 1)
     for rep in range(nrep):
-        shape = util.shape2d(rng, 7, 90 if thorough else 60) if d == 2 else util.shape3d(rng, 6, 34 if thorough else 22)
+        if thorough and rep % 2:  # large grids: ~1e6 faces per pattern in the thorough tier
+            shape = util.shape2d(rng, 300, 520) if d == 2 else util.shape3d(rng, 48, 72)
+        else:
+            shape = util.shape2d(rng, 7, 60) if d == 2 else util.shape3d(rng, 6, 22)
         fkind = ("noise", "big", "checker", "smooth", "spikes", "const")[rep % 6]
         f = util.field(rng, shape, fkind, real_t)
         if fkind == "const":
@@ -471,14 +468,16 @@ def _faces(sh, rec):
                     {"meta": meta, "axis": ax, "f": f, "v": v, "front": outs[0], "back": outs[1]},
                 )
         # black box: public kernel, delta field
-        for _ in range(24 if not thorough else 60):
+        big = int(np.prod(shape)) > 40000
+        for q in range(8 if big else (24 if not thorough else 60)):
             if min(shape) < 9:
                 break
             k = tuple(int(rng.integers(4, n - 4)) for n in shape)
             amp = float(rng.choice([1.0, -3.0, 0.37, 1e3]))
             fd = np.zeros(shape, real_t)
             fd[k] = amp
-            vel = np.ascontiguousarray(np.stack([_pattern_velocity(rng, shape, d - 1 - c, real_t) for c in range(d)]))
+            if q % (8 if big else 4) == 0:
+                vel = np.ascontiguousarray(np.stack([_pattern_velocity(rng, shape, d - 1 - c, real_t) for c in range(d)]))
             inv = float(rng.choice([1.0, 7.3, 0.01]))
             flux = np.zeros(shape, real_t)
             try:
